@@ -34,10 +34,19 @@ Inductive endk := Return | Revert | Fail.
 
 Definition endk_ok (e : endk) : bool := match e with Return => true | _ => false end.
 
+(* how a piece of execution ends: it goes on; it stops its enclosing frame (an error is returned); or Go code
+   PANICS. A panic is not an EVM error: nothing on the way recovers it (Gen_Precompiles.*_recovers = false), it
+   unwinds through ExecuteNativeAction (no snapshot restored, no journal entry), through the interpreter and out
+   of ApplyMessage: the SDK discards the whole transaction branch. *)
+Inductive status := Go | Stop | Panic.
+Definition status_eqb (a b : status) : bool :=
+  match a, b with Go, Go | Stop, Stop | Panic, Panic => true | _, _ => false end.
+Definition caught_status (caught : bool) : status := if caught then Go else Stop.
+
 Section Frames.
 Variable N : Type.                          (* native cache multistore (all Cosmos module stores) *)
 Variable eff : Type.                        (* a keeper call *)
-Variable apply : eff -> N -> N * bool.      (* store reached (partial writes included), success *)
+Variable apply : eff -> N -> N * status.    (* store reached (partial writes included) and how the call ended *)
 
 Inductive node :=
 | NStep (e : eff)
@@ -83,63 +92,75 @@ Fixpoint revert_to (k : nat) (s : st) (jr : list jentry) : sdb :=
   | j :: jr' => if Nat.leb (length jr) k then (s, jr) else revert_to k (undo j s) jr'
   end.
 
-(* ---- implementation semantics: result = state DB and "the enclosing frame goes on" ---- *)
+(* ---- implementation semantics: result = state DB and how the piece ended ---- *)
 
-Fixpoint exec (t : node) (d : sdb) {struct t} : sdb * bool :=
+Fixpoint exec (t : node) (d : sdb) {struct t} : sdb * status :=
   let '(s, jr) := d in
   match t with
   | NStep e =>
-      let '(n', ok) := apply e (s_nat s) in
-      ((mkst n' (s_logs s) (s_evs s) (s_stor s), jr), ok)
+      let '(n', r) := apply e (s_nat s) in
+      ((mkst n' (s_logs s) (s_evs s) (s_stor s), jr), r)
   | Write k v =>
       let prev := s_stor s k in
-      if Z.eqb prev v then (d, true)
-      else ((mkst (s_nat s) (s_logs s) (s_evs s) (upd (s_stor s) k v), JStorage k prev :: jr), true)
-  | Log t => ((mkst (s_nat s) (t :: s_logs s) (s_evs s) (s_stor s), JLog :: jr), true)
+      if Z.eqb prev v then (d, Go)
+      else ((mkst (s_nat s) (s_logs s) (s_evs s) (upd (s_stor s) k v), JStorage k prev :: jr), Go)
+  | Log t => ((mkst (s_nat s) (t :: s_logs s) (s_evs s) (s_stor s), JLog :: jr), Go)
   | Action body evs =>
       let snap := s_nat s in
-      let '((s1, jr1), ok) := exec_list body d in
-      if ok then
-        ((mkst (s_nat s1) (s_logs s1) (rev evs ++ s_evs s1) (s_stor s1), JNative snap (length evs) :: jr1), true)
-      else
-        (* revertNativeStateToSnapshot(snapshot); return err: the precompile's frame fails *)
-        ((mkst snap (s_logs s1) (s_evs s1) (s_stor s1), jr1), false)
+      let '((s1, jr1), r) := exec_list body d in
+      match r with
+      | Go => ((mkst (s_nat s1) (s_logs s1) (rev evs ++ s_evs s1) (s_stor s1), JNative snap (length evs) :: jr1), Go)
+      | Stop =>
+          (* revertNativeStateToSnapshot(snapshot); return err: the precompile's frame fails *)
+          ((mkst snap (s_logs s1) (s_evs s1) (s_stor s1), jr1), Stop)
+      | Panic => ((s1, jr1), Panic)      (* unwinds: neither restored nor journalled *)
+      end
   | Frame body en caught =>
       let k := length jr in
-      let '((s1, jr1), ok) := exec_list body d in
-      if ok && endk_ok en then ((s1, jr1), true)
-      else (revert_to k s1 jr1, caught)
+      let '((s1, jr1), r) := exec_list body d in
+      match r with
+      | Panic => ((s1, jr1), Panic)
+      | Go => if endk_ok en then ((s1, jr1), Go) else (revert_to k s1 jr1, caught_status caught)
+      | Stop => (revert_to k s1 jr1, caught_status caught)
+      end
   end
-with exec_list (l : nodes) (d : sdb) {struct l} : sdb * bool :=
+with exec_list (l : nodes) (d : sdb) {struct l} : sdb * status :=
   match l with
-  | nnil => (d, true)
+  | nnil => (d, Go)
   | ncons t r =>
-      let '(d1, ok) := exec t d in
-      if ok then exec_list r d1 else (d1, false)
+      let '(d1, st) := exec t d in
+      match st with Go => exec_list r d1 | _ => (d1, st) end
   end.
 
-(* ---- specification: a failed frame has no effect (no journal, the entry state is kept) ---- *)
+(* ---- specification: a failed frame has no effect (no journal, the entry state is kept);
+        a panic aborts the transaction ---- *)
 
-Fixpoint spec (t : node) (s : st) {struct t} : st * bool :=
+Fixpoint spec (t : node) (s : st) {struct t} : st * status :=
   match t with
   | NStep e =>
-      let '(n', ok) := apply e (s_nat s) in (mkst n' (s_logs s) (s_evs s) (s_stor s), ok)
-  | Write k v => (mkst (s_nat s) (s_logs s) (s_evs s) (upd (s_stor s) k v), true)
-  | Log t => (mkst (s_nat s) (t :: s_logs s) (s_evs s) (s_stor s), true)
+      let '(n', r) := apply e (s_nat s) in (mkst n' (s_logs s) (s_evs s) (s_stor s), r)
+  | Write k v => (mkst (s_nat s) (s_logs s) (s_evs s) (upd (s_stor s) k v), Go)
+  | Log t => (mkst (s_nat s) (t :: s_logs s) (s_evs s) (s_stor s), Go)
   | Action body evs =>
-      let '(s1, ok) := spec_list body s in
-      if ok then (mkst (s_nat s1) (s_logs s1) (rev evs ++ s_evs s1) (s_stor s1), true)
-      else (s1, false)
+      let '(s1, r) := spec_list body s in
+      match r with
+      | Go => (mkst (s_nat s1) (s_logs s1) (rev evs ++ s_evs s1) (s_stor s1), Go)
+      | _ => (s1, r)
+      end
   | Frame body en caught =>
-      let '(s1, ok) := spec_list body s in
-      if ok && endk_ok en then (s1, true) else (s, caught)
+      let '(s1, r) := spec_list body s in
+      match r with
+      | Panic => (s1, Panic)
+      | Go => if endk_ok en then (s1, Go) else (s, caught_status caught)
+      | Stop => (s, caught_status caught)
+      end
   end
-with spec_list (l : nodes) (s : st) {struct l} : st * bool :=
+with spec_list (l : nodes) (s : st) {struct l} : st * status :=
   match l with
-  | nnil => (s, true)
+  | nnil => (s, Go)
   | ncons t r =>
-      let '(s1, ok) := spec t s in
-      if ok then spec_list r s1 else (s1, false)
+      let '(s1, st) := spec t s in
+      match st with Go => spec_list r s1 | _ => (s1, st) end
   end.
 
 (* ---- a transaction: ApplyMessage = evm.Call at the top on a fresh journal, then Commit ---- *)
@@ -147,10 +168,20 @@ with spec_list (l : nodes) (s : st) {struct l} : st * bool :=
 (* what Commit publishes: native store and native events to the parent context, dirty storage to
    the evm keeper; the logs go to the receipt; the flag is !res.Failed() *)
 Definition run_impl (body : nodes) (en : endk) (s : st) : st * bool :=
-  let '((s1, _), ok) := exec (Frame body en false) (s, []) in (s1, ok).
+  let '((s1, _), r) := exec (Frame body en false) (s, []) in
+  match r with
+  | Go => (s1, true)
+  | Stop => (s1, false)
+  | Panic => (s, false)         (* ApplyMessage never returns: the transaction's branch of the store is dropped *)
+  end.
 
 Definition run_spec (body : nodes) (en : endk) (s : st) : st * bool :=
-  spec (Frame body en false) s.
+  let '(s1, r) := spec (Frame body en false) s in
+  match r with
+  | Go => (s1, true)
+  | Stop => (s1, false)
+  | Panic => (s, false)
+  end.
 
 (* ---- well-formedness: what the generated method table (Gen_Precompiles) establishes ---- *)
 
@@ -222,10 +253,22 @@ Arguments s_stor {N}.
    native store = list of marker ids applied (newest first);
    a keeper call = (marker id, succeeds?, writes before failing?) *)
 Definition mstore := list Z.
-Record meff := mkeff { m_id : Z; m_ok : bool; m_partial : bool }.
-Definition mapply (e : meff) (n : mstore) : mstore * bool :=
-  if m_ok e then (m_id e :: n, true)
-  else if m_partial e then (m_id e :: n, false) else (n, false).
+Record meff := mkeff { m_id : Z; m_ok : bool; m_partial : bool; m_panic : bool }.
+Definition mapply (e : meff) (n : mstore) : mstore * status :=
+  if m_ok e then (m_id e :: n, Go)
+  else
+    let r := if m_panic e then Panic else Stop in
+    if m_partial e then (m_id e :: n, r) else (n, r).
+
+(* no keeper call of the tree panics (the static reading below is about EVM-level failures) *)
+Fixpoint no_panic (t : node meff) : bool :=
+  match t with
+  | NStep e => m_ok e || negb (m_panic e)
+  | Write _ _ | Log _ => true
+  | Action b _ | Frame b _ _ => no_panic_list b
+  end
+with no_panic_list (l : nodes meff) : bool :=
+  match l with nnil => true | ncons t r => no_panic t && no_panic_list r end.
 
 Definition mnode := node meff.
 Definition mnodes := nodes meff.
@@ -277,17 +320,23 @@ with kept_in_list (m : Z) : mnodes -> Prop :=
 
 (* witnesses for the two well-formedness conditions (see P_Frames) *)
 Definition ex_unjournaled : mnodes :=
-  ncons (Frame (ncons (NStep (mkeff 1 true false)) nnil) Revert true) nnil.
+  ncons (Frame (ncons (NStep (mkeff 1 true false false)) nnil) Revert true) nnil.
 Definition ex_write_before_nested : mnodes :=
-  ncons (Frame (ncons (Action (ncons (NStep (mkeff 1 true false))
-                               (ncons (Frame (ncons (Action (ncons (NStep (mkeff 2 true false)) nnil) []) nnil) Return false)
-                               (ncons (NStep (mkeff 3 true false)) nnil))) []) nnil) Revert true) nnil.
+  ncons (Frame (ncons (Action (ncons (NStep (mkeff 1 true false false))
+                               (ncons (Frame (ncons (Action (ncons (NStep (mkeff 2 true false false)) nnil) []) nnil) Return false)
+                               (ncons (NStep (mkeff 3 true false false)) nnil))) []) nnil) Revert true) nnil.
 (* a transaction in which some effects survive and some do not *)
 Definition ex_mixed : mnodes :=
   ncons (Write 1 7)
- (ncons (Frame (ncons (Action (ncons (NStep (mkeff 10 true false)) (ncons (Log 110) nnil)) [10]) nnil) Return false)
+ (ncons (Frame (ncons (Action (ncons (NStep (mkeff 10 true false false)) (ncons (Log 110) nnil)) [10]) nnil) Return false)
  (ncons (Frame (ncons (Write 1 8)
-               (ncons (Frame (ncons (Action (ncons (NStep (mkeff 11 true false)) (ncons (Log 111) nnil)) [11]) nnil) Return false)
+               (ncons (Frame (ncons (Action (ncons (NStep (mkeff 11 true false false)) (ncons (Log 111) nnil)) [11]) nnil) Return false)
                (ncons (Log 5) nnil))) Revert true)
- (ncons (Frame (ncons (Action (ncons (NStep (mkeff 12 false true)) nnil) []) nnil) Return true)
- (ncons (Frame (ncons (Action (ncons (NStep (mkeff 13 true false)) (ncons (Log 113) nnil)) []) nnil) Return false) nnil)))).
+ (ncons (Frame (ncons (Action (ncons (NStep (mkeff 12 false true false)) nnil) []) nnil) Return true)
+ (ncons (Frame (ncons (Action (ncons (NStep (mkeff 13 true false false)) (ncons (Log 113) nnil)) []) nnil) Return false) nnil)))).
+
+(* a keeper call that panics after a partial write, inside frames whose failures are caught *)
+Definition ex_panic : mnodes :=
+  ncons (Write 1 7)
+ (ncons (Frame (ncons (Frame (ncons (Action (ncons (NStep (mkeff 20 false true true)) nnil) []) nnil) Return true) nnil) Return true)
+ (ncons (Write 2 9) nnil)).
